@@ -89,6 +89,7 @@ class Ctx:
         self.violations = []
         self.notes = []
         self.floors = []
+        self.unmet = []
         self.fb = None
         self.units = []
         self.t0 = time.time()
@@ -113,8 +114,11 @@ class Ctx:
     def floor(self, rule, count, minimum, what):
         self.floors.append({"rule": rule, "count": count, "min": minimum, "what": what})
         if count < minimum:
-            raise AnalysisBroken("%s: rule matched %d %s, fewer than the floor %d confirmed by reading "
-                                 "(anchor vanished or renamed)" % (rule, count, what, minimum))
+            # deferred: a real violation found elsewhere takes precedence (an edit that deletes a
+            # call site both breaks a rule and shrinks another rule's instance count); with no
+            # violation the unmet floor makes the run analysis-broken, never a pass
+            self.unmet.append("%s: rule matched %d %s, fewer than the floor %d confirmed by reading "
+                              "(anchor vanished or renamed)" % (rule, count, what, minimum))
 
     def broken(self, msg):
         raise AnalysisBroken(msg)
@@ -214,6 +218,8 @@ def run_property(prop, module, tier):
                 module.extra(ctx)
             if not ctx.obligations:
                 raise AnalysisBroken("no obligation was evaluated")
+            if ctx.unmet and not ctx.violations:
+                raise AnalysisBroken("; ".join(ctx.unmet))
         except AnalysisBroken as e:
             print("ANALYSIS-BROKEN property=%s %s" % (prop, e))
             try:
